@@ -1,4 +1,4 @@
-import GSProofs.Lemmas.RespLifeMailbox
+import GSProofs.Lemmas.RespLifeAccMgr
 import GS.Temporal
 import GS.Generated.MgrTx
 /-!
@@ -236,6 +236,105 @@ theorem pool_partial (s : State) (p : Peer) (id : Id) (hf : (getQ s p).freeze = 
     rcases hw with h | h <;> simp [h]
   rw [h1, h2, h3, h4]
   exact ⟨_, rfl⟩
+
+-- ------------------------------------------------------------------ busy workers are active topics
+/-- pigeonhole: a list without duplicates whose elements all occur in `m` is not longer than `m` -/
+theorem length_le_of_nodup_subset {α : Type} [DecidableEq α] :
+    ∀ (l m : List α), l.Nodup → (∀ a ∈ l, a ∈ m) → l.length ≤ m.length
+  | [], _, _, _ => Nat.zero_le _
+  | a :: t, m, hn, hs => by
+    rw [List.nodup_cons] at hn
+    have ham : a ∈ m := hs a List.mem_cons_self
+    have ht : ∀ b ∈ t, b ∈ m.erase a := by
+      intro b hb
+      have hne : b ≠ a := by rintro rfl; exact hn.1 hb
+      exact (List.mem_erase_of_ne hne).2 (hs b (List.mem_cons_of_mem _ hb))
+    have ih := length_le_of_nodup_subset t (m.erase a) hn.2 ht
+    rw [List.length_erase_of_mem ham] at ih
+    have hpos : 0 < m.length := List.length_pos_of_mem ham
+    simp only [List.length_cons]
+    omega
+
+/-- the (peer, id) topics that are active in some peer's task queue -/
+def activeTopics (s : State) : List (Peer × Id) :=
+  s.queues.flatMap fun q => q.active.map fun id => (q.peer, id)
+
+theorem wkind_done_iff (ph : WPhase) : wkind ph = .done ↔ ph = .done := by
+  cases ph with
+  | blockedTx ops k g => cases k <;> simp [wkind]
+  | _ => simp [wkind]
+
+/-- **every busy task worker is one active topic** (reachable with drained ids): the number of busy
+    workers is at most the number of active topics of all peers. -/
+theorem busy_workers_le_active {c : Cfg} {s : State} (h : ReachableDrained c s) :
+    liveWorkers s ≤ (activeTopics s).length := by
+  have hi := (linv_reachable h).1
+  -- the topics of the busy workers
+  have hlen : liveWorkers s = ((s.workers.filter (·.phase != .done)).map fun w => (w.peer, w.id)).length := by
+    simp [liveWorkers]
+  rw [hlen]
+  apply length_le_of_nodup_subset
+  · -- no two busy workers serve the same topic
+    rw [List.nodup_iff_pairwise_ne, List.pairwise_map, List.pairwise_filter, List.pairwise_iff_getElem]
+    intro i j hi' hj' hij hlive_i hlive_j heq
+    have hli : (acc s).liveW i (s.workers[i]).peer (s.workers[i]).id := by
+      refine ⟨wkind (s.workers[i]).phase, ?_, ?_⟩
+      · show (wcore s)[i]? = _
+        simp [wcore, hi']
+      · intro hd
+        have := (wkind_done_iff _).1 hd
+        simp [this] at hlive_i
+    have hlj : (acc s).liveW j (s.workers[i]).peer (s.workers[i]).id := by
+      have e1 : (s.workers[j]).peer = (s.workers[i]).peer := (congrArg Prod.fst heq).symm
+      have e2 : (s.workers[j]).id = (s.workers[i]).id := (congrArg Prod.snd heq).symm
+      refine ⟨wkind (s.workers[j]).phase, ?_, ?_⟩
+      · show (wcore s)[j]? = _
+        simp [wcore, hj', e1, e2]
+      · intro hd
+        have := (wkind_done_iff _).1 hd
+        simp [this] at hlive_j
+    have := hi.liveUniq i j _ _ hli hlj
+    omega
+  · -- each of them is an active topic of its peer
+    intro a ha
+    obtain ⟨w, hw, rfl⟩ := List.mem_map.1 ha
+    obtain ⟨hwm, hwl⟩ := List.mem_filter.1 hw
+    obtain ⟨i, hi', hwi⟩ := List.getElem_of_mem hwm
+    have hli : (acc s).liveW i w.peer w.id := by
+      refine ⟨wkind w.phase, ?_, ?_⟩
+      · show (wcore s)[i]? = _
+        simp [wcore, hi', hwi]
+      · intro hd
+        have := (wkind_done_iff _).1 hd
+        simp [this] at hwl
+    have hact : w.id ∈ (getQ s w.peer).active := (hi.actLive w.peer w.id).2 ⟨i, hli⟩
+    -- the tracker found by lookup is one of the queues
+    unfold getQ at hact
+    cases hf : s.queues.find? (·.peer == w.peer) with
+    | none => rw [hf] at hact; simp at hact
+    | some q =>
+      rw [hf] at hact
+      have hq := List.mem_of_find?_eq_some hf
+      have hqp : q.peer = w.peer := by simpa using List.find?_some hf
+      unfold activeTopics
+      rw [List.mem_flatMap]
+      exact ⟨q, hq, List.mem_map.2 ⟨w.id, hact, by rw [hqp]⟩⟩
+
+/-- **C25.pool_partial_case** (the case-level claim).  Reachable with drained ids: if the pool is
+    unbounded or FEWER THAN `nWorkers` TOPICS ARE ACTIVE in all task queues together — in particular when
+    the only active topics are requests of stalled peers and there are fewer than `nWorkers` of them, or
+    `MaxOutstandingWorkPerPeer` × (number of peers with active work) < `nWorkers` — then a pending task of
+    any peer that is not frozen and below its own cap can be popped: a worker is free for it.  (That the
+    pop then happens is the fairness assumption on the pool; after the pop the manager handles the
+    StartTask message by `partial_handled`.) -/
+theorem pool_partial_case {c : Cfg} {s : State} (h : ReachableDrained c s) (p : Peer) (id : Id)
+    (hf : (getQ s p).freeze = 0) (hp : id ∈ (getQ s p).pending.map (·.1))
+    (hc : s.maxActive = 0 ∨ (getQ s p).active.length < s.maxActive)
+    (hw : s.nWorkers = 0 ∨ (activeTopics s).length < s.nWorkers) : ∃ s', popTask s p id = some s' := by
+  apply pool_partial s p id hf hp hc
+  rcases hw with h0 | h1
+  · exact Or.inl h0
+  · exact Or.inr (Nat.lt_of_le_of_lt (busy_workers_le_active h) h1)
 
 /-- a pool of 2 task workers (taskqueue.Startup(2, ...)), per-peer limit 100: peer 0 stops acknowledging,
     two of its requests are being executed and both executors wait for memory; peer 1's request is
